@@ -85,8 +85,34 @@ def build(rng):
         fl, sid = sess[e[2]].next()
         e.append(net.sd_bytes([net.offer(e[3][0], e[3][1], e[3][2], e[3][3], e[4], o1=[refwire.ep4(SOURCES[e[2]][0], 3000)] if e[4] else [])],
                               sid, reboot=fl))
+    # stop + start of the discovery client ("after start" holds for every start): 0-2 restarts, the new start in the same
+    # loop iteration as the stop, one or two iterations later at the same instant, or after a pause
+    restarts = []
+    t_prev = s0
+    for _ in range(rng.choice((0, 0, 0, 1, 1, 2))):
+        pl = rng.choice(("random", "between", "d-eps", "d+eps", "d:before", "d:after"))
+        if pl in ("d:before", "d:after") and v == 0:
+            pl = "between"
+        seg_rounds = [t_prev + v]
+        for i in range(reps):
+            seg_rounds.append(seg_rounds[-1] + base * 2 ** i)
+        j = rng.randrange(len(seg_rounds))
+        rank = BEFORE
+        if pl == "random":
+            t = t_prev + rng.randrange(1, int((seg_rounds[-1] - t_prev + 1.0) * 16)) / 16.0 + 2.0 ** -8 + 2.0 ** -11
+        elif pl == "between":
+            t = (seg_rounds[j] + (seg_rounds[j + 1] if j + 1 < len(seg_rounds) else seg_rounds[j] + 0.5)) / 2 + 2.0 ** -10
+        else:
+            t, rank = {"d-eps": (seg_rounds[j] - EPS, BEFORE), "d:before": (seg_rounds[j], BEFORE), "d:after": (seg_rounds[j], AFTER),
+                       "d+eps": (seg_rounds[j] + EPS, BEFORE)}[pl]
+        if t <= t_prev + 4 * EPS:
+            continue
+        how = rng.choice(("same", "same", "hop1", "hop2", "later"))
+        t_start = t + (rng.choice((2.0 ** -6, 0.25, 1.0)) + 2.0 ** -12 if how == "later" else 0.0)
+        restarts.append(dict(stop=t, rank=rank, how=how, start=t_start, placement=pl))
+        t_prev = t_start
     return dict(window=window, f=f, reps=reps, base=base, find_ttl=find_ttl, filters=filters, s0=s0, rounds=rounds, events=events,
-                pat=tuple(pat))
+                pat=tuple(pat) + tuple((r["placement"], r["how"]) for r in restarts), restarts=restarts)
 
 
 def model_rounds(sc):
@@ -151,7 +177,14 @@ def judge(ctx, sc, seed, replay):
     h.at(sc["s0"], prot.discovery.start)
     for e in sc["events"]:
         h.at(e[0], prot.datagram_received, e[6], SOURCES[e[2]], False, rank=e[1])
-    h.run(sc["rounds"][-1] + 3.0)
+    for r in sc.get("restarts", ()):
+        if r["how"] == "same":
+            h.at(r["stop"], lambda: (prot.discovery.stop(), prot.discovery.start()), rank=r["rank"])
+        else:
+            h.at(r["stop"], prot.discovery.stop, rank=r["rank"])
+            h.at(r["start"], prot.discovery.start, rank=r["rank"], hops={"hop1": 1, "hop2": 2}.get(r["how"], 0))
+    last_start = sc["restarts"][-1]["start"] if sc.get("restarts") else sc["s0"]
+    h.run(max(sc["rounds"][-1], last_start + (sc["rounds"][-1] - sc["s0"])) + 3.0)
     problems = h.problems()
     sent = None
     try:
@@ -160,6 +193,38 @@ def judge(ctx, sc, seed, replay):
         problems.append(("undecodable-transmission", repr(exc)))
     h.close()
     ctx.count("scenarios")
+    if sc.get("restarts") and sent is not None and not problems:
+        # every start opens a segment of its own, judged like a single start; what is sent between a stop and the next
+        # start is outside the property ("after start ...") and only counted
+        bounds = [(sc["s0"], None)]
+        for r in sc["restarts"]:
+            bounds[-1] = (bounds[-1][0], r["stop"])
+            bounds.append((r["start"], None))
+        nt = False
+        for k, (t0, t1) in enumerate(bounds):
+            nxt = bounds[k + 1][0] if k + 1 < len(bounds) else math.inf
+            seg_sent = [m for m in sent if t0 - 4 * RES <= m["t"] and (m["t"] <= t1 + 4 * RES if t1 is not None else True) and m["t"] < nxt - 4 * RES]
+            if t1 is not None:
+                ctx.count("finds_between_stop_and_next_start", len([m for m in sent if t1 + 4 * RES < m["t"] < nxt - 4 * RES]))
+            if k + 1 < len(bounds) and abs(nxt - t1) <= 4 * RES:
+                # restart within one instant: a datagram of that very instant belongs to the new start (its window may open at once)
+                seg_sent = [m for m in seg_sent if m["t"] < t1 - 4 * RES]
+            if k > 0 and abs(t0 - bounds[k - 1][1]) <= 4 * RES:
+                seg_sent = [m for m in sent if t0 - 4 * RES <= m["t"] and (m["t"] <= t1 + 4 * RES if t1 is not None else True) and m["t"] < nxt - 4 * RES]
+            ctx.count("segments_after_restart" if k else "segments_before_restart")
+            if k:
+                ctx.count("restart_" + sc["restarts"][k - 1]["how"])
+            rounds = [t0 + (sc["rounds"][0] - sc["s0"])]
+            for i in range(sc["reps"]):
+                rounds.append(rounds[-1] + sc["base"] * 2 ** i)
+            nt = judge_segment(ctx, dict(sc, s0=t0, rounds=rounds), seg_sent, t1, replay) or nt
+        return nt
+    return judge_segment(ctx, sc, sent, None, replay, problems)
+
+
+def judge_segment(ctx, sc, sent, t_stop, replay, problems=()):
+    """one start of the client: sent = the datagrams attributed to it; t_stop = instant at which it was stopped (rounds
+    later than that are not expected, a round in that very instant may or may not have left)"""
     # the property promises the first round "inside the initial-delay window": anchor the round schedule on the instant the
     # first FindService actually left (finds are not collected, so the wire instant is the decision instant)
     if sent:
@@ -174,6 +239,9 @@ def judge(ctx, sc, seed, replay):
                 rounds.append(rounds[-1] + sc["base"] * 2 ** i)
             sc = dict(sc, rounds=rounds)
             ctx.count("rounds_anchored_on_observed_first_round")
+    elif t_stop is not None and t_stop <= sc["s0"] + sc["window"][1] + 4 * RES:
+        ctx.count("segments_stopped_before_their_first_round_was_due")
+        return False  # stopped before the window closed: silence is right whatever the draw was
     elif sc["window"][0] != sc["window"][1]:
         # nothing was sent at all and the instant of the first round is only known to lie in the window: that is right iff
         # at SOME instant of the window every watched filter had a live matching offer (the round then has nothing to ask
@@ -215,6 +283,15 @@ def judge(ctx, sc, seed, replay):
     nontrivial = False
     for r, definite, maybe, nfound in expected:
         obs = sent[i] if i < len(sent) and abs(sent[i]["t"] - r) <= tol else None
+        if t_stop is not None and r >= t_stop - tol:
+            if r > t_stop + tol and obs is None:
+                break  # the client was stopped before this round
+            if obs is None:
+                break  # round in the instant of the stop: either
+            if r > t_stop + tol:
+                bad("find-round-sent-after-the-client-was-stopped", at=r, stopped=t_stop)
+                return nontrivial
+            ctx.count("round_in_the_instant_of_a_stop")
         if ended:
             if obs is not None:
                 bad("find-sent-after-every-watched-service-was-found", at=r)
@@ -256,7 +333,7 @@ def judge(ctx, sc, seed, replay):
             bad("unfound-watched-service-missing-from-find-round", at=r, filters=[sc["filters"][k] for k in missing])
         if extra:
             bad("find-sent-for-a-service-with-a-live-matching-offer", at=r, filters=[sc["filters"][k] for k in extra])
-    if not ended and len(expected) == sc["reps"] + 1 and i == len(expected):
+    if not ended and len(expected) == sc["reps"] + 1 and i == len(expected) and t_stop is None:
         ctx.count("max_rounds_reached")
     if i < len(sent):
         m = sent[i]
